@@ -82,6 +82,27 @@ func CreateConsensusRawMessage(message ConsensusMessage) *ConsensusRawMessage {
 	return rawMessage
 }
 
+// ParseConsensusMessage converts received content into a typed message and makes sure that every
+// field of it can be read. Content that is not one of the five message types yields an error, and
+// so does content whose size fields point outside the buffer: the wire-format reader panics on
+// those, here once and recovered, instead of later inside a handler.
+func ParseConsensusMessage(consensusMessage *ConsensusRawMessage) (message ConsensusMessage, err error) {
+	defer func() {
+		if r := recover(); r != nil {
+			message, err = nil, fmt.Errorf("malformed consensus message content: %v", r)
+		}
+	}()
+	if consensusMessage == nil {
+		return nil, fmt.Errorf("nil consensus message")
+	}
+	message = ToConsensusMessage(consensusMessage)
+	if message == nil {
+		return nil, fmt.Errorf("unrecognized consensus message content")
+	}
+	_ = message.String() // reads every field, nested proofs and votes included
+	return message, nil
+}
+
 func ToConsensusMessage(consensusMessage *ConsensusRawMessage) ConsensusMessage {
 	var message ConsensusMessage
 	lhContentReader := protocol.LeanhelixContentReader(consensusMessage.Content)
